@@ -422,3 +422,96 @@ def sh_traverse(ctx, out, rule="SH.traverse", bodies=None):
             elif len(sites) < 6:
                 sites.append("%s:%s" % (b.name, nm.split("::")[-1]))
     out.inst(rule, n, 40, sites, note="iterator adaptor calls over work collections, none truncating")
+
+
+# -------------------------------------------------------------------------------------------------
+# SH.units — character counts never stand in for byte offsets (engine.units, A14)
+# -------------------------------------------------------------------------------------------------
+def sh_units(ctx, out, rule="SH.units", floor=20):
+    """Crate-wide: no value counted in characters (count()/position()/enumerate() over chars()) is
+    used as a bound of a `str` slice or added to / subtracted from a byte quantity (str::len, find,
+    pointer differences). Every column, offset and slice bound in blockwatch is a byte offset; the
+    two units coincide on ASCII text only, which is all the test-suite contains."""
+    from engine.units import Units, ENUM_CHARS_TY, CHARS_TY
+    examined = 0
+    seeds = 0
+    samples = []
+    seen = set()
+    bodies = [b for b in ctx.facts.bodies.values() if not b.is_derive()]
+    # closures handed to a method of an Enumerate<Chars> iterator: their item parameter
+    item_params = {}
+    for b in bodies:
+        for bi, t in b.calls():
+            if len(t["args"]) < 2:
+                continue
+            pl0 = t["args"][0].get("c") or t["args"][0].get("m")
+            if pl0 is None:
+                continue
+            ty0 = b.locals[pl0["l"]].get("ty") or ""
+            if not ENUM_CHARS_TY.search(ty0) or "CharIndices" in ty0:
+                continue
+            for a in t["args"][1:]:
+                pl = a.get("c") or a.get("m")
+                if pl is None:
+                    continue
+                adt = b.locals[pl["l"]].get("adt")
+                cb = ctx.facts.body(adt) if adt else None
+                if cb is not None and cb.kind == "Closure":
+                    item_params.setdefault(cb.id, set()).add(2)
+    for b in bodies:
+        views = [(b, item_params.get(b.id, ()))]
+        if any(CHARS_TY.search(l.get("ty") or "") for l in b.locals) and b.kind != "Closure":
+            v = ctx.inl(b, skip=ctx.domain_api, tag="domain", sugar=True)
+            if v is not b:
+                views.append((v, ()))
+        for v, items in views:
+            u = Units(ctx, v, items)
+            seeds += len(u.seeds)
+            found, n = u.sinks()
+            if v is b:
+                examined += n
+            for kind, bi, span, why in found:
+                where = ctx.where(v, span)
+                key = "%s|%s|%s" % (rule, b.id, kind)
+                if key in seen:
+                    continue
+                seen.add(key)
+                src = "%s at %s" % (why[2], ctx.where(v, why[1]))
+                if kind == "str-index":
+                    out.viol(rule, key, where, "a `str` is sliced / split at an index counted in characters (%s): byte offsets and character counts differ as soon as a multi-byte character precedes the position — the slice starts at the wrong place or panics inside a character" % src)
+                else:
+                    out.viol(rule, key, where, "a character count (%s) is added to / subtracted from a byte quantity: the result is neither; every column and offset blockwatch reports is in bytes" % src)
+            if len(samples) < 4 and u.seeds and v is b:
+                samples.append(ctx.where(b, u.seeds[0][1]))
+    out.inst(rule, examined, floor, samples,
+             note="str slice/split sites and +/- sites over unit-carrying values examined; %d character-count source(s) in the crate" % seeds)
+
+
+# -------------------------------------------------------------------------------------------------
+# SH.flags — only the drift validator consults the modification flags
+# -------------------------------------------------------------------------------------------------
+FLAG_FIELDS = ("is_content_modified", "_is_start_tag_modified", "is_start_tag_modified")
+
+
+def sh_flags(ctx, out, name, rule):
+    """Which blocks are validated is decided once, by the selection (C02); a rule validator (sort, unique,
+    pattern, count, Lua, AI) judges every block it is handed: its code reads `BlockWithContext.block`
+    and never the modification flags."""
+    from rules import util as U
+    n = 0
+    region = ctx.validator_bodies(name)
+    for b in region:
+        if not ("blockwatch::validators::" in b.id):
+            continue
+        if b.id.startswith("blockwatch::validators::affects") or b.id.startswith("<blockwatch::validators::affects"):
+            continue
+        seen = set()
+        for bi, span, pl in U.all_places(b):
+            for e in pl["p"]:
+                if isinstance(e, dict) and e.get("f") in FLAG_FIELDS and e["f"] not in seen:
+                    seen.add(e["f"])
+                    out.viol(rule, "%s|%s|%s" % (rule, name, e["f"]), ctx.where(b, span),
+                             "the `%s` validator reads the modification flag `%s`: whether a block is checked then depends on which of its lines the diff touched, so a block selected because its start tag (the rule itself) changed, or by a glob, can pass although its content violates the rule" % (name, e["f"]))
+                elif isinstance(e, dict) and e.get("f") == "block":
+                    n += 1
+    out.inst(rule, n, 1, note="reads of BlockWithContext.block in the validator's code; reads of the modification flags must be 0")
